@@ -19,6 +19,7 @@
   nothing of the asset is left bonded (`unhealthy_orphaned_total`, scope).
 -/
 import AllianceProofs
+import AllianceProofs.ArithTie
 namespace Alliance
 namespace C06
 open Dec
